@@ -24,7 +24,7 @@ FLOORS = {'quick': {'enum:numbering': 6000, 'enum:limit': 5000, 'random': 2400, 
           'thorough': {'enum:numbering': 6000, 'enum:limit': 28000, 'random': 75000, 'random:limit': 150000}}
 REQUIRED_MONITORS = ['oracle:copies-and-counters', 'oracle:copies-direct-entry', 'probe:repeat-guard-monotone', 'probe:repeater-stack-balanced']
 
-SITE_KINDS = ['name', 'class', 'id', 'attr', 'qattr', 'attrname', 'text']
+SITE_KINDS = ['name', 'class', 'id', 'attr', 'qattr', 'attrname', 'text', 'eattr']
 
 
 def describe(tier):
@@ -73,6 +73,8 @@ def head(n):
             parts += '[q%d="%s z"]' % (tag, site)
         elif kind == 'attrname':
             parts += '[%s=v]' % site
+        elif kind == 'eattr':
+            parts += '[e%d={%s}]' % (tag, site)     # an expression value keeps its braces in EVERY copy
         else:
             text += '{%s}' % site
     s = name + '.m%d' % n.mark + ids + parts + text
@@ -117,7 +119,7 @@ def simulate(nodes, budget, ctx, truncated):
                     else:
                         b = 1 if base is None else base
                         v = b + c[1] - c[0] - 1 if rev else b + c[0]
-                    vals[str(tag)] = [str(v).rjust(w, '0'), bool(rev)]
+                    vals[str(tag)] = [str(v).rjust(w, '0'), bool(rev), kind]
                 out.append(['open', n.mark, vals])
                 out += simulate(n.ch, budget, c, truncated)
                 out.append(['close'])
@@ -149,6 +151,9 @@ def observe(out):
                     if mm:
                         m = int(mm.group(1))
             vals = {g[0]: g[1] for g in RE_SITE.findall(raw)}
+            for a, v in t[2]:
+                for g in RE_SITE.findall('%s=%s' % (a, v)):
+                    vals['raw:' + g[0]] = v
             res.append(['open', m, vals])
             if t[3]:
                 res.append(['close'])
@@ -200,7 +205,11 @@ class Mon:
         for e, a in zip(expected, act):
             if e[0] != 'open':
                 continue
-            for tag, (val, rev) in e[2].items():
+            for tag, spec in e[2].items():
+                val, rev = spec[0], spec[1]
+                if len(spec) > 2 and spec[2] == 'eattr' and not str(a[2].get('raw:' + tag, '')).startswith('{'):
+                    ctx.violation('expression-value-lost-its-braces', case, {'site': 'k' + tag, 'element_mark': e[1], 'printed': a[2].get('raw:' + tag), 'output': r[1][:300]})
+                    return
                 if truncated and rev:
                     continue
                 if a[2].get(tag) != val:
